@@ -20,6 +20,9 @@ thread_local! {
   static NOW: Cell<u128> = Cell::new(0);
   /// durations requested from new_timer, in ms rounded to nearest
   static TIMER_REQS: RefCell<Vec<u64>> = RefCell::new(vec![]);
+  /// durations requested from new_timer that are not a whole number of case units, in ns (with the position of the request):
+  /// such a duration was computed from the real clock
+  static ODD_TIMERS: RefCell<Vec<(usize, u128)>> = RefCell::new(vec![]);
 }
 
 thread_local! {
@@ -52,6 +55,10 @@ impl Future for VTimer {
 }
 
 fn vtimer(d: Duration) -> BoxFuture<'static, ()> {
+  let pos = TIMER_REQS.with(|r| r.borrow().len());
+  if d.as_nanos() % unit() != 0 {
+    ODD_TIMERS.with(|o| o.borrow_mut().push((pos, d.as_nanos())));
+  }
   TIMER_REQS.with(|r| r.borrow_mut().push(((d.as_nanos() + unit() / 2) / unit()) as u64));
   Box::pin(VTimer { due: NOW.with(|n| n.get()) + d.as_nanos() })
 }
@@ -393,6 +400,7 @@ macro_rules! timed_runner {
         install_timer();
         NOW.with(|n| n.set(0));
         TIMER_REQS.with(|r| r.borrow_mut().clear());
+        ODD_TIMERS.with(|o| o.borrow_mut().clear());
         SPAWNED.with(|q| q.borrow_mut().clear());
         let log: TLog = TLog::default();
         let fin = Arc::new(AtomicBool::new(false));
@@ -533,9 +541,16 @@ macro_rules! timed_runner {
           }
           collect(&mut tasks);
         }
-        let r = show(&log.lock().unwrap());
+        let mut r = show(&log.lock().unwrap());
         if let Some(g) = guard.take() {
           std::mem::forget(g);
+        }
+        // no operator but the `_at` ones may look at the real clock: interval_at's first timer is the time left until the
+        // instant, every other timer of every operator is a duration the caller gave
+        let first_is_real = op.head() == "interval_at";
+        let odd: Vec<(usize, u128)> = ODD_TIMERS.with(|o| o.borrow().iter().cloned().filter(|(pos, _)| !(first_is_real && *pos == 0)).collect());
+        if let Some((pos, ns)) = odd.first() {
+          r.push_str(&format!(" (realclock {pos} {ns})"));
         }
         r
       }
